@@ -11,6 +11,7 @@ import CTV.Sha256
         => ok <version> <logid> <ts> <ext> <hash> <alg> <sig> | rsperr <status> | err | panic
   get <status> <jsonok>                                   => ok | rsperr <status>
   nores <method>                                          => err     (no response was received)
+  troots <n> {<status|0> <jsonok> <allb64ok>}*n           => ok | err  (TemporalLogClient.GetAcceptedRoots; status 0 = no response)
   roots <status> <jsonok> <n> {<b64ok>}*                  => ok | rsperr <status>
   ents <start> <end> <status> <jsonok> <n> {<leaf> <extra> <fatal>}*  => ok <n> {<entry>}* | rsperr <status> | err
   rle <leaf> <extra>                                      => ok <entry> | err
@@ -153,6 +154,21 @@ where go : List String → String
               (addChain (prims pb) (if vf then some key else none) keyID leaf rsps)
         | _ => "bad-op"
     | _, _, _, _, _ => "bad-op"
+  | "troots" :: n :: rest =>
+    match parseNat? n with
+    | some n =>
+      let rec shards : Nat → List String → Option (List (Option (Rsp (List (Option Bytes)))))
+        | 0, [] => some []
+        | k+1, st :: jok :: bok :: more =>
+          match parseNat? st, parseBool? jok, parseBool? bok, shards k more with
+          | some st, some jok, some bok, some tl =>
+            some ((if st = 0 then none else some ⟨st, [], if jok then some [if bok then some [] else none] else none⟩) :: tl)
+          | _, _, _, _ => none
+        | _, _ => none
+      match shards n rest with
+      | some ss => if (temporalRoots ss).isSome then "ok" else "err"
+      | none => "bad-op"
+    | none => "bad-op"
   | ["nores", _] => "err"      -- the transport failed: no response, hence a bare error (jsonclient returns the transport's error)
   | ["get", st, jok] =>
     match parseNat? st, parseBool? jok with
